@@ -12938,3 +12938,99 @@ func E11CursorRevalidatedAfterJoin(c *core.Ctx, r *core.Report) {
 	r.Count("E11.cursor-revalidated-after-join", n)
 	r.Floor("E11.cursor-revalidated-after-join", 1)
 }
+
+// E11EmptyCloseKeepsPosition: the path-data parser keeps the position of a sub-path that Close removed.
+func E11EmptyCloseKeepsPosition(c *core.Ctx, r *core.Report) {
+	r.Rule("E11.empty-close-keeps-position", "SVG path data continues after `z` at the start of the sub-path just closed. Path.Close removes a sub-path that is a MoveTo only, and with it the place the builder would continue from. The `Z` case of ParseSVGPath therefore compares the builder's pen (p.Pos()) with the parser's own current point after the Close, and a MoveTo is issued — in that case, or before the next drawing command under a flag set there — when they differ. Without it `M5 5zl1 1` is read as `M0 0L6 6`, and after an earlier sub-path the line is attached to that sub-path")
+	p := c.MustPkg("")
+	info := p.TypesInfo
+	fd := core.MustFuncDecl(p, "ParseSVGPath")
+	r.Func("canvas.ParseSVGPath")
+	key := "canvas.ParseSVGPath|case 'Z'|position kept when Close removes an empty sub-path"
+	r.Count("E11.empty-close-keeps-position", 1)
+	var zcase *ast.CaseClause
+	ast.Inspect(fd.Body, func(m ast.Node) bool {
+		cc, ok := m.(*ast.CaseClause)
+		if !ok {
+			return true
+		}
+		for _, e := range cc.List {
+			if v, ok := core.ConstInt(info, e); ok && (v == 'Z' || v == 'z') {
+				// the clause that calls Close
+				ast.Inspect(cc, func(k ast.Node) bool {
+					if call, ok := k.(*ast.CallExpr); ok {
+						if f := core.CalleeOf(info, call); f != nil && f.Name() == "Close" {
+							zcase = cc
+						}
+					}
+					return true
+				})
+			}
+		}
+		return true
+	})
+	if zcase == nil {
+		r.Fail("E11.empty-close-keeps-position", key, c.Pos(fd.Pos()), "the case of ParseSVGPath that handles Z/z by calling Close was not found")
+		return
+	}
+	callsPos := func(nd ast.Node) bool {
+		hit := false
+		ast.Inspect(nd, func(k ast.Node) bool {
+			if call, ok := k.(*ast.CallExpr); ok {
+				if f := core.CalleeOf(info, call); f != nil && f.Name() == "Pos" {
+					hit = true
+				}
+			}
+			return true
+		})
+		return hit
+	}
+	callsMoveTo := func(nd ast.Node) bool {
+		hit := false
+		ast.Inspect(nd, func(k ast.Node) bool {
+			if call, ok := k.(*ast.CallExpr); ok {
+				if f := core.CalleeOf(info, call); f != nil && f.Name() == "MoveTo" {
+					hit = true
+				}
+			}
+			return true
+		})
+		return hit
+	}
+	good := false
+	var flag types.Object
+	for _, st := range zcase.Body {
+		switch x := st.(type) {
+		case *ast.IfStmt:
+			if callsPos(x.Cond) && callsMoveTo(x.Body) {
+				good = true
+			}
+		case *ast.AssignStmt:
+			if len(x.Lhs) == 1 && len(x.Rhs) == 1 && callsPos(x.Rhs[0]) {
+				if id, ok := x.Lhs[0].(*ast.Ident); ok {
+					flag = core.ObjOf(info, id)
+				}
+			}
+		}
+	}
+	if !good && flag != nil {
+		ast.Inspect(fd.Body, func(m ast.Node) bool {
+			is, ok := m.(*ast.IfStmt)
+			if !ok || !callsMoveTo(is.Body) {
+				return true
+			}
+			ast.Inspect(is.Cond, func(k ast.Node) bool {
+				if id, ok := k.(*ast.Ident); ok && core.ObjOf(info, id) == flag {
+					good = true
+				}
+				return true
+			})
+			return true
+		})
+	}
+	if good {
+		r.OK("E11.empty-close-keeps-position", key, c.Pos(zcase.Pos()), "")
+	} else {
+		r.Fail("E11.empty-close-keeps-position", key, c.Pos(zcase.Pos()), "after p.Close() the parser does not compare the builder's pen with its own current point (no test of p.Pos() that leads to a MoveTo): when Close removes a sub-path that was a MoveTo only, the next relative or absolute drawing command starts at the end of the previous sub-path (or at the origin) instead of at the closed sub-path's start — `M5 5zl1 1` becomes `M0 0L6 6`")
+	}
+}
